@@ -167,7 +167,7 @@ def c19_run(prop, tier, seed):
 P_ASSUME = COMMON_ASSUME + ["the reference evaluator and the AST printer are trusted (guarded by the wrong-reference self-test and the mutation demos)"]
 
 SPECS = {}
-QUICK_FAMILIES = ["shape", "scc", "lat", "agg", "timeout", "ds", "par", "sugar", "macro", "pack", "packseg"]
+QUICK_FAMILIES = ["shape", "scc", "lat", "agg", "timeout", "ds", "par", "sugar", "macro", "pack", "packseg", "perm"]
 SPECS["C01"] = {"run": prog_check(["shape", "scc"], "C01"), "replay": prog_replay,
                 "technique": "bounded-exhaustive enumeration of programs (compiled by the real macros) x all input databases, compared with a naive reference evaluator",
                 "assumptions": P_ASSUME + ["programs from the families F-shape and F-scc, domain {0,1}"]}
@@ -277,6 +277,11 @@ def c09_run(prop, tier, seed):
 SPECS["C09"] = {"run": c09_run, "replay": prog_replay,
                 "technique": "differential over packaging configurations: every variant (ascent_run!, include_source at every cut, initialised / re-declared relations, timing / timeout attributes, generic struct signature, segment-codegen build) of each program is compiled by the real macros and compared with the reference on all inputs",
                 "assumptions": P_ASSUME + ["a core set of programs from F-scc, F-lat, F-agg, F-shape"]}
+
+
+SPECS["C06"] = {"run": prog_check(["perm"], "C06"), "replay": prog_replay,
+                "technique": "differential over syntactic variants: every permutation of rules / declarations / head clauses / independent body clauses, adversarial variable and relation names, injective renamings of the constants into i64 / String / a struct with colliding Hash, and three input tuple orders; all compiled by the real macros, each compared with the reference on all inputs",
+                "assumptions": P_ASSUME + ["units from F-scc and F-shape; identifiers reserved by the generated code are not used as names"]}
 
 
 def ds_check(dsname):
